@@ -937,7 +937,13 @@ restore_ownership (void *data)
     }
   else
     {
-      _dbus_assert (d->hash_entry == NULL);
+      /* The service still has owners, so it was never unlinked from
+       * the registry: the hash entry preallocated for relinking it is
+       * not needed.
+       */
+      _dbus_assert (d->hash_entry != NULL);
+      _dbus_hash_table_free_preallocated_entry (d->service->registry->service_hash,
+                                                d->hash_entry);
     }
   
   /* We don't need to send messages notifying of these
